@@ -38,6 +38,8 @@ def main():
             tag = sys.argv[i + 1]
         if a == "--checks":
             checks = sys.argv[i + 1].split(",")
+            if checks == ["ALL"]:
+                checks = ["C%02d" % k for k in range(1, 21)]
         if a == "--tier":
             tier = sys.argv[i + 1]
         if a == "--skip-suite":
